@@ -144,6 +144,48 @@ def no_trace(rep, tier, cases):
     rep.extra["no_trace_runs"] = n
 
 
+def accessor_rename_leg(rep, tier, cases):
+    """A conditional rename on a method that is also a NAMED getter / setter (`getter = "level"`): the rename reaches the accessor's name
+    exactly in the backends where its condition holds -- among those that show it at all when it is unconditional."""
+    wd = rep.wd
+    rng = random.Random(lib.seed() + 29)
+    def prog(cfg):
+        r = ("        #[diplomat::attr(%s, rename = \"shiny_{0}\")]\n" % cfg) if cfg else ""
+        return ("#[diplomat::bridge]\nmod ffi {\n" + TDECL["opaque"] + "    impl Tee {\n        #[diplomat::attr(auto, getter = \"level\")]\n" + r +
+                "        pub fn get_level(&self) -> u8 { 1 }\n        #[diplomat::attr(auto, setter = \"level\")]\n" + r +
+                "        pub fn set_level(&mut self, v: u8) {}\n        pub fn m_two(&self) -> u8 { 2 }\n    }\n}\n")
+    shows = lambda o: o["rc"] == 0 and any(b"shiny" in v.lower() for v in (o["tree"] or {}).values())
+    always = gen_all(wd, "acc_all", prog("*"))
+    never = gen_all(wd, "acc_none", prog(None))
+    # (demo_gen's tree mixes its own files with the js/ files written by a nested run of the js backend under js's name: left out)
+    renders = [b for b in lib.BACKENDS if b != "demo_gen" and shows(always[b]) and not shows(never[b])]
+    for b in ("dart", "js"):
+        # `*` holds everywhere: the backends that name properties after the accessor must show the rename
+        if b not in renders:
+            rep.violation({"leg": "accessor-rename", "backend": b, "holds": True, "what": "conditional rename of a named accessor not applied where it holds"},
+                          {"formula": "*", "program": prog("*"), "stderr": always[b]["stderr"]})
+    by_sig = {}
+    for c in cases:
+        by_sig.setdefault(tuple(sorted(b for b, v in c["sat"].items() if v)), []).append(c)
+    sigs = sorted(by_sig)
+    rng.shuffle(sigs)
+    n = 0
+    for sg in sigs[: (4 if tier == "quick" else 20)]:
+        c = rng.choice(by_sig[sg])
+        got = gen_all(wd, "acc_cond", prog(ftext(c["form"])))
+        n += 1
+        for b in renders:
+            if got[b]["rc"] != 0:
+                continue
+            if shows(got[b]) != bool(c["sat"][b]):
+                rep.violation({"leg": "accessor-rename", "backend": b, "holds": c["sat"][b],
+                               "what": "conditional rename of a named accessor not applied where it holds" if c["sat"][b] else "conditional rename applied where it does not hold"},
+                              {"formula": ftext(c["form"]), "program": prog(ftext(c["form"]))})
+        rep.nontriv("accessor-rename:" + ftext(c["form"]))
+    rep.evaluations += n * len(renders)
+    rep.extra["accessor_rename_runs"] = n
+
+
 def allsyms(tkind):
     return {"Tee_m_one", "Tee_m_two", "Tee_m_three", "Uuu_u_one", "Uuu_destroy"} | ({"Tee_destroy"} if tkind == "opaque" else set())
 
@@ -377,5 +419,6 @@ def run(rep, tier):
     cases = truth_table(rep, tier, gen)
     placement(rep, tier, cases)
     no_trace(rep, tier, cases)
+    accessor_rename_leg(rep, tier, cases)
     exports(rep)
     rep.exhaustive = False
